@@ -85,8 +85,7 @@ local function body(sp, probe, f, tgt, w1, ...)
   local mt0
   if w1 then mt0 = getmetatable(w1) end
   if sp == 9 then
-    -- the call is made by a __gc finalizer; the context has its own finalizer
-    -- pool (see enter), so the finalizer runs inside the context, when it ends
+    -- the call is made by a __gc finalizer created inside the context
     local args = pack(...)
     setmetatable({}, {__gc = function()
       rec("B", tostring(rcontext()))
@@ -271,16 +270,11 @@ func (mc *machine) enter(luaSpelling bool, required rt.ComplianceFlags, args []r
 		}
 	}()
 	t := mc.r.MainThread()
-	if n, ok := args[0].TryInt(); ok && n == 9 {
-		// finalizer spelling: the context gets its own finalizer pool, so that
-		// the __gc function runs inside the context when it ends (the Lua API
-		// has no way to ask for that without also setting a limit, which would
-		// change the required flags: both context spellings use the Go API)
-		ctx, _ := t.CallContext(rt.RuntimeContextDef{RequiredFlags: required, GCPolicy: rt.IsolateGCPolicy}, func() error {
-			return rt.Call(t, mc.body, args, rt.NewTerminationWith(nil, 0, false))
-		})
-		return ctx.Status().String(), ""
-	}
+	// (finalizer spelling, sp == 9: nothing special here.  A context that adds
+	// required flags owns its finalizer pool, so the __gc function runs inside
+	// it when it ends; with no required flags it runs when the runtime is
+	// closed, before the sentinel is looked at - either way under at least the
+	// flags of the context that created it.)
 	if luaSpelling {
 		// runtime.callcontext({flags = "..."}, body, args...)
 		def := rt.NewTable()
